@@ -32,19 +32,31 @@ def check(ctx):
                       expect="NoPanic", workers=16)
     ctx.tlc_model("CachePersistMC", "CachePersistMC.cfg", timeout=600)
     # ---- (1) the model's counterexample schedule on the real run() / shutdown()
+    full_queue_shutdown(ctx, thorough, c12.PROTOS, mirror=False)
+    if thorough:
+        full_queue_shutdown(ctx, thorough, ["ipfix", "sflow"], mirror=True)
+    # ---- (2) end to end
+    end_to_end(ctx, thorough)
+    end_to_end(ctx, thorough, bind="127.0.0.1")
+
+
+def full_queue_shutdown(ctx, thorough, protos, mirror):
     drv = ctx.go_build_test("vflow", ["vflow/shutdown_verif_test.go"])
-    d = ctx.subdir("c15")
-    for proto in c12.PROTOS:
+    d = ctx.subdir("c15m" if mirror else "c15")
+    for proto in protos:
         out = os.path.join(d, "sd-%s.json" % proto)
+        udp = __import__("socket").SOCK_DGRAM
         rc, log, to = ctx.go_run(drv, "TestVerifShutdownFullQueue", timeout=120,
-                                 env={"VERIF_OUT": out, "VERIF_PROTO": proto, "VERIF_PORT": e2e.free_port(__import__("socket").SOCK_DGRAM),
+                                 env={"VERIF_OUT": out, "VERIF_PROTO": proto, "VERIF_PORT": e2e.free_port(udp),
+                                      "VERIF_MIRROR": 1 if mirror else 0, "VERIF_MIRROR_PORT": e2e.free_port(udp),
                                       "VERIF_HOLD_MS": 8000 if thorough else 3500})
-        ctx.count([proto, "full-queue-shutdown"])
+        ctx.count([proto, "full-queue-shutdown", mirror])
         if rc != 0 or not os.path.exists(out):
             why = next((l for l in log.split("\n") if l.startswith(("panic:", "fatal error:"))), None)
             if why or "panic" in log:
-                ctx.violation("%s: shutdown while the receive loop waits for room in a full queue: the process died: %s" % (proto, why or log[-300:]),
-                              {"proto": proto, "schedule": "workers stalled with a datagram each, 1000 queued, receive loop blocked sending, shutdown(), workers released 3.5 s (thorough 8 s) later"},
+                ctx.violation("%s%s: shutdown while the receive loop waits for room in a full queue: the process died: %s"
+                              % (proto, " (mirroring enabled)" if mirror else "", why or log[-300:]),
+                              {"proto": proto, "mirror": mirror, "schedule": "workers stalled with a datagram each, 1000 queued, receive loop blocked sending, shutdown(), workers released 3.5 s (thorough 8 s) later"},
                               key=proto + ":send-on-closed")
                 continue
             raise vlib.Infra("shutdown driver failed: " + log[-1500:])
@@ -57,9 +69,6 @@ def check(ctx):
         elif not r["cache_loads"]:
             ctx.violation("%s: the template cache file written at shutdown does not load" % proto, {"proto": proto}, key=proto + ":cache")
         ctx.traces_validated += 1
-    # ---- (2) end to end
-    end_to_end(ctx, thorough)
-    end_to_end(ctx, thorough, bind="127.0.0.1")
 
 
 def end_to_end(ctx, thorough, bind=""):
